@@ -301,14 +301,18 @@ func init() {
 	})
 	reg(pkgPrefix+"verifOverride", func(fr *frame, a []value) value {
 		name := mustString(a[0], "verifOverride")
-		if !strings.Contains(name, "/") {
-			if strings.HasPrefix(name, "(*") {
+		// unqualified names refer to the package under test
+		switch {
+		case strings.HasPrefix(name, "(*"):
+			if recv := name[2:strings.Index(name, ")")]; !strings.Contains(recv, ".") {
 				name = "(*github.com/rhysd/actionlint." + name[2:]
-			} else if strings.HasPrefix(name, "(") {
-				name = "(github.com/rhysd/actionlint." + name[1:]
-			} else {
-				name = pkgPrefix + name
 			}
+		case strings.HasPrefix(name, "("):
+			if recv := name[1:strings.Index(name, ")")]; !strings.Contains(recv, ".") {
+				name = "(github.com/rhysd/actionlint." + name[1:]
+			}
+		case !strings.Contains(name, "."):
+			name = pkgPrefix + name
 		}
 		fr.i.overrides[name] = a[1].(iface).v
 		return nil
@@ -993,14 +997,44 @@ func init() {
 		return iface{}
 	})
 
+	// path/filepath: pure functions, native on concrete strings. The working
+	// directory is virtual (verifSetCwd), "/" by default.
+	s1 := func(name string, f func(string) string) {
+		reg("path/filepath."+name, func(fr *frame, a []value) value { return f(mustString(a[0], "filepath."+name)) })
+	}
+	s1("ToSlash", filepath.ToSlash)
+	s1("FromSlash", filepath.FromSlash)
+	s1("Dir", filepath.Dir)
+	s1("Base", filepath.Base)
+	s1("Clean", filepath.Clean)
+	s1("Ext", filepath.Ext)
+	reg("path/filepath.IsAbs", func(fr *frame, a []value) value { return filepath.IsAbs(mustString(a[0], "filepath.IsAbs")) })
+	reg("path/filepath.Join", func(fr *frame, a []value) value {
+		var parts []string
+		for _, e := range a[0].([]value) {
+			parts = append(parts, mustString(e, "filepath.Join"))
+		}
+		return filepath.Join(parts...)
+	})
+	reg("path/filepath.Rel", func(fr *frame, a []value) value {
+		r, err := filepath.Rel(mustString(a[0], "filepath.Rel"), mustString(a[1], "filepath.Rel"))
+		if err != nil {
+			return tuple{"", fr.i.newError(err.Error())}
+		}
+		return tuple{r, iface{}}
+	})
+	reg("os.Getwd", func(fr *frame, a []value) value { return tuple{fr.i.cwd(), iface{}} })
+	reg(pkgPrefix+"verifSetCwd", func(fr *frame, a []value) value {
+		fr.i.vcwd = mustString(a[0], "verifSetCwd")
+		return nil
+	})
 	reg("path/filepath.Abs", func(fr *frame, a []value) value {
 		i := fr.i
 		if s, ok := a[0].(string); ok {
-			r, err := filepath.Abs(s)
-			if err != nil {
-				return tuple{"", i.newError(err.Error())}
+			if filepath.IsAbs(s) {
+				return tuple{filepath.Clean(s), iface{}}
 			}
-			return tuple{r, iface{}}
+			return tuple{filepath.Join(i.cwd(), s), iface{}}
 		}
 		bs := strBytes(a[0])
 		if len(bs) == 0 {
@@ -1073,6 +1107,55 @@ func init() {
 			return nil
 		})
 	}
+	reg("runtime.NumCPU", func(fr *frame, a []value) value { return 4 })
+	reg("context.Background", func(fr *frame, a []value) value { return iface{} })
+	reg("golang.org/x/sync/semaphore.NewWeighted", func(fr *frame, a []value) value { return nativePtr("semaphore") })
+	reg("(*golang.org/x/sync/semaphore.Weighted).Acquire", func(fr *frame, a []value) value {
+		if fr.i.trace != nil {
+			fr.i.trace.syncEvent(fr.i, "sem.Acquire", a)
+		}
+		return iface{}
+	})
+	reg("(*golang.org/x/sync/semaphore.Weighted).Release", func(fr *frame, a []value) value {
+		if fr.i.trace != nil {
+			fr.i.trace.syncEvent(fr.i, "sem.Release", a)
+		}
+		return nil
+	})
+	for _, n := range []string{"Add", "Done", "Wait"} {
+		name := "(*sync.WaitGroup)." + n
+		reg(name, func(fr *frame, a []value) value {
+			if fr.i.trace != nil {
+				fr.i.trace.syncEvent(fr.i, name, a)
+			}
+			return nil
+		})
+	}
+	// errgroup in sequential harnesses: Go runs the function at once, Wait
+	// returns the first error
+	reg("(*golang.org/x/sync/errgroup.Group).Go", func(fr *frame, a []value) value {
+		i := fr.i
+		if i.trace != nil {
+			i.trace.spawn(i, fr, a[1], nil)
+			return nil
+		}
+		r := call(i, fr, 0, a[1], nil)
+		if e, ok := r.(iface); ok && e.t != nil {
+			if i.egErr == nil {
+				i.egErr = map[*value]value{}
+			}
+			if _, seen := i.egErr[a[0].(*value)]; !seen {
+				i.egErr[a[0].(*value)] = e
+			}
+		}
+		return nil
+	})
+	reg("(*golang.org/x/sync/errgroup.Group).Wait", func(fr *frame, a []value) value {
+		if e, ok := fr.i.egErr[a[0].(*value)]; ok {
+			return e
+		}
+		return iface{}
+	})
 	reg("(*sync.Once).Do", func(fr *frame, a []value) value {
 		i := fr.i
 		p := a[0].(*value)
@@ -1087,6 +1170,13 @@ func init() {
 }
 
 // ---- helpers used by intrinsics ----
+
+func (i *interpreter) cwd() string {
+	if i.vcwd == "" {
+		return "/"
+	}
+	return i.vcwd
+}
 
 func (i *interpreter) noteAssume(s string) {
 	for _, a := range i.assumes {
